@@ -22,57 +22,63 @@ open PtLazy
 def cfg : Config := PtGen.lazyConfig
 
 /-- the current source satisfies the isolation condition -/
-theorem safe_generated : SafeIso cfg = true := by decide +kernel
+theorem safe_generated : SafeIso tables3 cfg = true := by decide +kernel
 
 /-- **public_unchanged**: whatever happens on private tables – inits before or after the first
     public touch, assignments, in-place mutation of their per-atom data – and in whatever order
     the public table is used, a read of the public table serves what a fresh interpreter serves -/
-theorem public_unchanged (c : Config) (hsafe : SafeCfg c = true) (h : List Event)
-    (hok : runOK c c.init h) (chain : List Node) (hch : ChainOK chain) (p : Nat) :
+theorem public_unchanged (c : Config) (hsafe : SafeCfg tables3 c = true) (hsh : NoSharedCfg c)
+    (h : List Event) (hok : runOK tables3 c c.init h) (chain : List Node) (hch : ChainOK chain) (p : Nat) :
     (step c (run c c.init h) (.read 0 chain p)).2 = canon c (.read 0 chain p) :=
-  public_read_canon hsafe (ginv_run hsafe h _ (ginv_init hsafe) hok) chain hch p
+  public_read_canon hsafe (ginv_run hsafe h _ (ginv_init hsafe) hok (fun _ _ _ => hsh)) chain hch p
 
-theorem public_unchanged_hasattr (c : Config) (hsafe : SafeCfg c = true) (h : List Event)
-    (hok : runOK c c.init h) (chain : List Node) (hch : ChainOK chain) (p : Nat) :
+theorem public_unchanged_hasattr (c : Config) (hsafe : SafeCfg tables3 c = true) (hsh : NoSharedCfg c)
+    (h : List Event) (hok : runOK tables3 c c.init h) (chain : List Node) (hch : ChainOK chain) (p : Nat) :
     (step c (run c c.init h) (.has 0 chain p)).2 = canon c (.has 0 chain p) :=
-  public_has_canon hsafe (ginv_run hsafe h _ (ginv_init hsafe) hok) chain hch p
+  public_has_canon hsafe (ginv_run hsafe h _ (ginv_init hsafe) hok (fun _ _ _ => hsh)) chain hch p
 
-theorem public_unchanged_generated (h : List Event) (hok : runOK cfg cfg.init h) (chain : List Node)
+theorem public_unchanged_generated (h : List Event) (hok : runOK tables3 cfg cfg.init h) (chain : List Node)
     (hch : ChainOK chain) (p : Nat) :
     (step cfg (run cfg cfg.init h) (.read 0 chain p)).2 = canon cfg (.read 0 chain p) :=
-  public_unchanged cfg (safeIso_at safe_generated).1 h hok chain hch p
+  public_unchanged cfg (safeIso_at safe_generated).1 (safeIso_at safe_generated).2.2.2 h hok chain hch p
 
 /-- **private_fresh_equals_public**: after any history, initialise the attribute's group on a
     private table that carries no user values; that table then serves, for every atom and route,
     what the public table serves (in a fresh interpreter) -/
-theorem private_fresh_equals_public (c : Config) (hsafe : SafeIso c = true) (h : List Event)
-    (hok : runOK c c.init h) (t : Nat) (ht : t ∈ privTables)
+theorem private_fresh_equals_public (c : Config) (hsafe : SafeIso tables3 c = true) (h : List Event)
+    (hok : runOK tables3 c c.init h) (t : Nat) (ht : t ∈ privTables)
     (hclean : TableClean t (run c c.init h).log)
     (chain : List Node) (hch : ChainOK chain) (p gi : Nat) (g : GroupCfg)
     (hgi : c.groupOf p = some gi) (hg : c.groups[gi]? = some g) :
     (step c (step c (run c c.init h) (.init g.loader t)).1 (.read t chain p)).2
       = canon c (.read 0 chain p) := by
-  obtain ⟨h1, h2, h3⟩ := safeIso_at hsafe
-  exact private_fresh_canon h1 h2 (ginv_run h1 h _ (ginv_init h1) hok) ht hclean chain hch p gi g hgi hg
-    (h3 g (List.mem_of_getElem? hg))
+  obtain ⟨h1, h2, h3, h4⟩ := safeIso_at hsafe
+  exact private_fresh_canon h1 h2 (ginv_run h1 h _ (ginv_init h1) hok (fun _ _ _ => h4)) ht hclean chain hch p gi g hgi hg
+    (h3 g (List.mem_of_getElem? hg)) (by
+      unfold privTables at ht; unfold tables3
+      rcases List.mem_cons.mp ht with rfl | h'
+      · simp
+      · rcases List.mem_cons.mp h' with rfl | h''
+        · simp
+        · cases h'')
 
 /-- **objects_disjoint**: the per-atom objects of two tables are different objects – a fresh
     in-place mutation mark made through table t is never seen through any other table (public or
     private), whatever is read there -/
-theorem objects_disjoint (c : Config) (hsafe : SafeCfg c = true) (h : List Event)
-    (hok : runOK c c.init h) (t : Nat) (chain : List Node) (p n : Nat)
-    (hev : evOK c (run c c.init h) (.mutate t chain p n))
+theorem objects_disjoint (c : Config) (hsafe : SafeCfg tables3 c = true) (hsh : NoSharedCfg c) (h : List Event)
+    (hok : runOK tables3 c c.init h) (t : Nat) (chain : List Node) (p n : Nat)
+    (hev : evOK tables3 c (run c c.init h) (.mutate t chain p n))
     (hfresh : ∀ e ∈ (run c c.init h).log, ∀ sc a p' src, e ≠ LEntry.mark sc a p' src n)
     (t' : Nat) (ht' : t' ≠ t) (chain' : List Node) (p' : Nat) :
     n ∉ (step c (step c (run c c.init h) (.mutate t chain p n)).1 (.read t' chain' p')).2.marks :=
-  mark_not_seen_elsewhere hsafe (ginv_run hsafe h _ (ginv_init hsafe) hok) t chain p n hev hfresh
+  mark_not_seen_elsewhere hsafe hsh (ginv_run hsafe h _ (ginv_init hsafe) hok (fun _ _ _ => hsh)) t chain p n hev hfresh
     t' ht' chain' p'
 
 /-- assignments are local as well: the log never holds a user value of the public table -/
-theorem no_public_user_values (c : Config) (hsafe : SafeCfg c = true) (h : List Event)
-    (hok : runOK c c.init h) (node : Node) (p : Nat) :
+theorem no_public_user_values (c : Config) (hsafe : SafeCfg tables3 c = true) (hsh : NoSharedCfg c)
+    (h : List Event) (hok : runOK tables3 c c.init h) (node : Node) (p : Nat) :
     userVal (run c c.init h).log 0 node p = none :=
-  userVal_public (ginv_run hsafe h _ (ginv_init hsafe) hok).log node p
+  userVal_public (ginv_run hsafe h _ (ginv_init hsafe) hok (fun _ _ _ => hsh)).log node p
 
 /-! ## the full statement, and why it is only proved with the exclusion (finding D19) -/
 
@@ -108,7 +114,7 @@ def fe : List Node := [⟨.element, 26, [(3, 1)]⟩]
 
 def hist1 : List Event := [.init 3 1, .mutate 1 fe 3 5, .assign 2 fe 3 9, .init 3 2]
 
-example : runOK cfg cfg.init hist1 := runOK_of_b (by decide +kernel)
+example : runOK tables3 cfg cfg.init hist1 := runOK_of_b (by decide +kernel)
 example : (step cfg (run cfg cfg.init hist1) (.read 0 fe 3)).2 = .data 3 1 [] := by decide +kernel
 example : (step cfg (run cfg cfg.init hist1) (.read 1 fe 3)).2 = .data 3 1 [5] := by decide +kernel
 example : (step cfg (run cfg cfg.init hist1) (.read 2 fe 3)).2 = .data 3 1 [] := by decide +kernel
@@ -125,7 +131,7 @@ def cfgPinned : Config :=
           | .instWrite c 3 sel _ => .instWrite c 3 sel true
           | e => e) } }
 
-theorem pinned_unsafe : SafeCfg cfgPinned = false := by decide +kernel
+theorem pinned_unsafe : SafeIso tables3 cfgPinned = false := by decide +kernel
 
 /-- D13 / D14 on the pinned tree: `nsf.init(T)` first disables the public neutron data; a record
     mutated through T is the public table's record -/
